@@ -50,10 +50,12 @@ Definition prints_qbytes : list (string * string) := [
   ("where", "1f44eac3967e2148")].
 Definition table_qbits : list (string * list string) := [
   ("_to_copy", ["aten._to_copy"]);
-  ("detach", ["aten.detach"])].
+  ("detach", ["aten.detach"]);
+  ("clone", ["aten.clone"])].
 Definition prints_qbits : list (string * string) := [
   ("_to_copy", "153b68222b359528");
-  ("detach", "6f7fdd8616310d8e")].
+  ("detach", "6f7fdd8616310d8e");
+  ("clone", "7077e8dff4171599")].
 Definition table_funcs : list (string * list string) := [
   ("has_compatible_shallow_copy_type", ["torch._has_compatible_shallow_copy_type"]);
   ("unsupported_op", ["torch.nn.functional.cross_entropy"; "torch.nn.functional.cosine_similarity"; "torch.nn.functional.layer_norm"; "torch.nn.functional.log_softmax"; "torch.topk"]);
@@ -72,6 +74,6 @@ Definition prints_entry : list (string * string) := [
   ("QBitsTensor.__new__", "3a2e448eebb2daae");
   ("QBitsTensor.__init__", "7b4dda2ed8e232ae");
   ("QBitsTensor.create", "04c4821ab7946e55");
-  ("PackedTensor.__torch_dispatch__", "6ff9e75129e945c0");
+  ("PackedTensor.__torch_dispatch__", "3c039bf2d56d3ad1");
   ("is_scalar", "0690f6be33a45ada");
   ("cannot_mm", "42260f0827e21e86")].
